@@ -10,7 +10,7 @@
    Terminal: Spec/TermSpec.v.  Decoder: Spec/PlaceholderSpec.v (decode_at). *)
 From Coq Require Import ZArith NArith List Bool.
 From Tup Require Import Gen.DiacriticsGen Model.PlaceholderModel Spec.TermSpec Spec.PlaceholderSpec
-  Proofs.DiacriticsFacts Proofs.TermPaintFacts Proofs.PlaceholderToks Proofs.PlaceholderStmt Proofs.PlaceholderMain.
+  Proofs.DiacriticsFacts Proofs.TermPaintFacts Proofs.PlaceholderToks Proofs.PlaceholderStmt Proofs.PlaceholderMain Proofs.PlaceholderProps.
 Import ListNotations.
 Open Scope N_scope.
 
@@ -35,11 +35,7 @@ Theorem C07_decodes :
       let t' := feed W H t0 (wire st (concat ws)) in
       forall x y, (0 <= x < W)%Z -> (0 <= y < H)%Z ->
         decode_at (scr t') (Z.to_nat W) (Z.to_nat x) y = expected_at H p (origin_x st t0) (origin_y st t0) x y.
-Proof.
-  intros W H id pid c0 r0 c1 r1 m st t0 HW HH Hid Hpid Hc Hr Hc0 Hm p Hs Hf Hb.
-  exact (stream_decodes_all W H HW HH st p m BNone t0 (conj Hid (conj Hpid (conj Hc (conj (proj1 Hr) Hc0))))
-           (or_intror (proj2 Hr)) Hm Hs Hf Hb).
-Qed.
+Proof. exact c07_decodes_stmt. Qed.
 Print Assumptions C07_decodes.
 
 (* non-vacuity: a 3 x 2 rectangle of image 0x01000102 printed with save/restore from the bottom row of
